@@ -43,6 +43,7 @@ var verifErrFault = errors.New("verif: injected store fault")
 func verifNewStore() *verifStoreT {
 	verifMaxRows = 0
 	verifDuringTopicDelete = nil
+	verifCredsLookupFails = false
 	s := &verifStoreT{
 		subs:   map[string]*types.Subscription{},
 		topics: map[string]*types.Topic{},
@@ -528,7 +529,13 @@ func (verifUsers) FailCred(id types.Uid, method string) error {
 func (verifUsers) GetActiveCred(id types.Uid, method string) (*types.Credential, error) {
 	return nil, nil
 }
+// verifCredsLookupFails makes the store's credential lookup fail (a read fault)
+var verifCredsLookupFails bool
+
 func (verifUsers) GetAllCreds(id types.Uid, method string, validatedOnly bool) ([]types.Credential, error) {
+	if verifCredsLookupFails {
+		return nil, types.ErrInternal
+	}
 	return nil, nil
 }
 func (verifUsers) DelCred(id types.Uid, method, value string) error {
